@@ -229,7 +229,9 @@ where
     #[allow(clippy::should_implement_trait)]
     #[inline]
     pub fn next(&mut self) -> Option<Result<(&mut R, O), E>> {
-        self.done_recv.recv().unwrap().map(move |result| {
+        // a closed channel means that the reader thread has stopped
+        // (e.g. because the reader could not be initialized)
+        self.done_recv.recv().unwrap_or(None).map(move |result| {
             match result {
                 Ok((r, o)) => {
                     vpoint!(ConsumerRecv);
